@@ -66,6 +66,11 @@ func (o *OverlayFS) ReadDir(name string) ([]fs.DirEntry, error) {
 	if !found && lastErr != nil {
 		return nil, lastErr
 	}
+	if !found && name != "." {
+		// There was no layer to ask. That is an empty filesystem: its root exists and
+		// is empty, every other path is present in no layer
+		return nil, &fs.PathError{Op: "readdir", Path: name, Err: fs.ErrNotExist}
+	}
 
 	entries := make([]fs.DirEntry, 0, len(merged))
 	for _, e := range merged {
